@@ -1064,6 +1064,8 @@ class Path:
                 return list(o.items.keys())
             if isinstance(o, BAObj) and isinstance(o.val, bytes):
                 return list(o.val)
+            if isinstance(o, BAObj) and isinstance(o.val, Sym):
+                return self.concrete_iter(o.val)
         if isinstance(it, type) and issubclass(it, enum.Enum):
             return list(it)
         if isinstance(it, enum.EnumMeta):
